@@ -19,5 +19,7 @@ import Evenio.Props.C17
 import Evenio.Props.C18
 import Evenio.Props.C19
 import Evenio.Props.C20
+import Evenio.Proofs.Inv.All
+import Evenio.Props.ReachLists
 /-! Every property module in one environment (same import list as AllProofs.lean).  `lake build Evenio.All` checks
     that no two proof modules declare the same name with different statements. -/
